@@ -3,22 +3,30 @@ from __future__ import annotations
 
 import json
 
+from translator import c05 as tr
+
 from .. import core
 from ..core import Broken, Ctx, Violation
 
 PROP_FILE = "Properties/C05.v"
 
 TRUSTED = [
-    "no translator: Model/ParamSpace.v is hand-written and tied to pyxel/observation/{misc,observation,"
-    "parameter_values}.py and pyxel/evaluator.py only by the correspondence leg (testing)",
-    "correspondence harness: harness/props/c05.py generators, harness/drivers/c05.py (DataTree dump via .isel/.sel), "
-    "probes/verif_probes_c05.py (records received values, writes their base-64 code into pixel)",
+    "translator/c05.py: what it reads from pyxel/observation/{misc,observation}.py is believed (name fallback and third "
+    "naming stage, enabled_steps filters, short(), CustomMode.build guards and column selection, convert_custom_data "
+    "column addressing and scalar test, the dimensions _add_custom_parameters gives a vector parameter); it fails closed "
+    "on any other shape",
+    "the loops of the three modes (itertools.product / the sequential double loop / the column cursor) and of the dask "
+    "path (create_params, run_pipelines_with_dask) are hand-written in Model/ParamSpace.v and tied to the code only by "
+    "the correspondence leg (testing)",
+    "correspondence harness: harness/props/c05.py generators, harness/drivers/c05.py (DataTree dump via .isel/.sel, "
+    "dask path under the synchronous scheduler), probes/verif_probes_c05.py (records received values, writes their "
+    "base-64 code into pixel)",
     "modelled, not verified: itertools.product / zip / dict insertion order (= iproduct / combine / dict_set), "
-    "toolz.unique, pandas DataFrame.loc label slicing and iterrows, xarray expand_dims / assign_coords / merge "
-    "(= labelled entries merged when equal), numpy expression strings evaluated by eval_range (the model receives "
-    "the list the harness rendered the expression from)",
-    "rendering of dimension names as strings (Short s -> s, WithModel m p -> m.p) is injective on dot-free "
-    "components: used, not proved in Coq",
+    "toolz.unique, pandas DataFrame.loc label slicing, iterrows, MultiIndex.from_product + Series.to_xarray (= a "
+    "permutation of every level; proved irrelevant for the label->data map), xarray expand_dims / assign_coords / merge "
+    "(= labelled entries merged when equal), xarray.apply_ufunc over a chunked object array (= one run per cell, stored "
+    "in that cell), numpy expression strings evaluated by eval_range (the model receives the list the harness rendered "
+    "the expression from)",
 ]
 
 P1 = "pipeline.charge_collection.{m}.arguments."
@@ -72,7 +80,18 @@ def layout(name):
 
 
 def rand_val(r, s, integral=False):
+    """One value for the slot (numerator in eighths).  A slot marked "neg" (model arguments of a case
+    that allows negative values) takes values in [-31, 31] \\ {-1}: the probe's positional code stays
+    injective (digit range below 64) and -1 stays the marker of a value that is not a multiple of 1/8."""
     def one():
+        if s.get("neg"):
+            if integral:
+                v = 8 * r.randrange(1, 4)
+            else:
+                v = r.randrange(max(1, s["lo"]), min(31, s["hi"]) + 1)
+            if r.random() < 0.4:
+                v = -v
+            return -2 if v == -1 else v
         if integral and s["hi"] >= 16:
             return 8 * r.randrange(max(1, (s["lo"] + 7) // 8), s["hi"] // 8 + 1)
         return r.randrange(s["lo"], s["hi"] + 1)
@@ -84,17 +103,43 @@ def rand_val(r, s, integral=False):
     return [one() for _ in range(s["vlen"])]
 
 
-def gen_values(r, s):
-    """A list of 1..4 values for the slot, and how it is written (literal list / numpy expression)."""
-    n = r.choice([1, 1, 2, 2, 3, 3, 4])
+def _order(r, vals, style):
+    """Impose the requested order on a value list: "desc" = descending, "unsorted" = neither ascending nor
+    (where three distinct values allow it) descending, None = as drawn."""
+    key = (lambda v: tuple(v)) if vals and isinstance(vals[0], list) else (lambda v: v)
+    if style == "desc":
+        return sorted(vals, key=key, reverse=True)
+    if style == "unsorted" and len({json.dumps(v) for v in vals}) >= 2:
+        asc = sorted(vals, key=key)
+        for _ in range(20):
+            r.shuffle(vals)
+            if vals != asc and (vals != asc[::-1] or len(vals) < 3):
+                break
+        if vals == asc:
+            vals = asc[::-1]
+    return vals
+
+
+def gen_values(r, s, style=None, nodup=False, fine=False):
+    """A list of 1..4 values for the slot, and how it is written (literal list / numpy expression).
+    style: None | "desc" | "unsorted" (see _order); nodup: no value twice."""
+    n = r.choice([1, 1, 2, 2, 3, 3, 4]) if style is None else r.choice([2, 3, 3, 4])
     p = dict(kind="lit")
     if s["vlen"] > 0:
         n = min(n, 3)
-        p["values"] = [rand_val(r, s) for _ in range(n)]
-        if r.random() < 0.25 and n > 1:
-            p["values"][r.randrange(1, n)] = list(p["values"][0])      # duplicate vector
+        vals = [rand_val(r, s) for _ in range(n)]
+        if r.random() < 0.25 and n > 1 and not nodup:
+            vals[r.randrange(1, n)] = list(vals[0])      # duplicate vector
+        if nodup:
+            vals = [list(t) for t in dict.fromkeys(tuple(v) for v in vals)]
+        p["values"] = _order(r, vals, style)
         return p
     how = r.choice(["list", "list", "ints", "array", "arange", "linspace"])
+    if s.get("neg") and how in ("arange", "linspace"):
+        how = "array"
+    if fine and how in ("ints", "arange"):
+        how = "array"               # fine values (0.5 + n / 2**30) are never integral
+    fl = (lambda e: repr(0.5 + e / 2.0 ** 30)) if fine else (lambda e: repr(e / 8.0))
     if how in ("arange", "linspace"):
         unit = 8 if how == "arange" else r.choice([1, 2, 4])
         step = unit * r.randrange(1, 3)
@@ -107,35 +152,60 @@ def gen_values(r, s):
         else:
             start = unit * r.randrange(lo_k, hi_k + 1)
             vals = [start + i * step for i in range(n)]
-            p["values"] = vals
-            if how == "arange":
+            if style in ("desc", "unsorted") and n > 1:
+                # the same numbers written as a descending numpy expression
+                vals = vals[::-1]
+                if how == "arange":
+                    p["expr"] = f"numpy.arange({vals[0] // 8}, {start // 8 - 1}, {-(step // 8)})"
+                else:
+                    p["expr"] = f"numpy.linspace({fl(vals[0])}, {fl(vals[-1])}, {n})"
+            elif how == "arange":
                 p["expr"] = f"numpy.arange({start // 8}, {(start + n * step) // 8}, {step // 8})"
             else:
-                p["expr"] = f"numpy.linspace({start / 8.0!r}, {vals[-1] / 8.0!r}, {n})"
+                p["expr"] = f"numpy.linspace({fl(start)}, {fl(vals[-1])}, {n})"
+            p["values"] = vals
             return p
     vals = [rand_val(r, s, integral=(how == "ints")) for _ in range(n)]
-    if n > 1 and r.random() < 0.3:
+    if n > 1 and r.random() < 0.3 and not nodup:
         vals[r.randrange(1, n)] = vals[0]                                # duplicate value
+    if nodup:
+        vals = list(dict.fromkeys(vals))
+    vals = _order(r, vals, style)
     p["values"] = vals
     if how == "ints":
         p["ints"] = True
     elif how == "array":
-        if all(v % 8 == 0 for v in vals) and r.random() < 0.5:
+        if all(v % 8 == 0 for v in vals) and r.random() < 0.5 and not fine:
             p["expr"] = "numpy.array([" + ", ".join(str(v // 8) for v in vals) + "])"
         else:
-            p["expr"] = "numpy.array([" + ", ".join(repr(v / 8.0) for v in vals) + "])"
+            p["expr"] = "numpy.array([" + ", ".join(fl(v) for v in vals) + "])"
     return p
 
 
-def gen_case(r, mode=None, lay=None, kind="valid"):
+def gen_case(r, mode=None, lay=None, kind="valid", dask=False, style=None, nodup=None, neg=None, nparams=None,
+             fine=None):
+    """dask: run on the dask path; style: order of the value lists (None | "desc" | "unsorted" | "mixed" = drawn
+    per parameter); nodup: no value twice in a list; neg: model arguments may be negative."""
     mode = mode or r.choice(["product", "product", "sequential", "sequential", "custom", "custom"])
     lay = lay or r.choices(["L1", "L3", "L2", "L4", "L5"], [8, 3, 1, 1, 1])[0]
     probes, slots = layout(lay)
+    if neg is None:
+        neg = r.random() < 0.3
+    if fine is None:
+        fine = r.random() < 0.15    # values 0.5 + n / 2**30 (31 significant bits) instead of n / 8
+    if nodup is None:
+        nodup = dask and r.random() < 0.85
+    for s in slots:
+        if neg and s["arg"] is not None:
+            s["neg"] = True
     for s in slots:
         s["default"] = rand_val(r, s)
         if s["arg"] is not None:
             probes[s["probe"]]["args"][s["arg"]] = s["default"]
-    nparams = r.choice([1, 2, 2, 3, 3, 4])
+    if nparams is None:
+        nparams = r.choice([1, 2, 2, 3, 3, 4])
+        if dask and mode == "sequential" and r.random() < 0.6:
+            nparams = 1             # the dask path of sequential mode only does what was asked with one parameter
     pool = list(range(len(slots)))
     if mode == "product":
         # keep the product small: at most two long lists
@@ -157,16 +227,17 @@ def gen_case(r, mode=None, lay=None, kind="valid"):
         en = r.random() < 0.78
         if mode == "custom":
             if s["vlen"] == 0:
-                if s["arg"] is not None and r.random() < 0.15:
+                if s["arg"] is not None and r.random() < (0.06 if dask else 0.15):
                     p = dict(kind="unders", n=1)
                 else:
                     p = dict(kind="under")
             else:
                 p = dict(kind="unders", n=s["vlen"])
             if kind == "literal_in_custom" and r.random() < 0.5:
-                p = gen_values(r, s)
+                p = gen_values(r, s, fine=fine)
         else:
-            p = gen_values(r, s)
+            st = r.choice([None, "desc", "unsorted", "unsorted"]) if style == "mixed" else style
+            p = gen_values(r, s, style=st, nodup=nodup, fine=fine)
             if kind == "placeholder_in_noncustom" and r.random() < 0.5:
                 p = dict(kind="under") if s["vlen"] == 0 else dict(kind="unders", n=s["vlen"])
         p.update(key=s["key"], enabled=en, slot=i)
@@ -174,21 +245,26 @@ def gen_case(r, mode=None, lay=None, kind="valid"):
     if mode == "sequential" and r.random() < 0.12 and params and params[0]["kind"] == "lit":
         # the same key swept twice is allowed in sequential mode
         s = slots[params[0]["slot"]]
-        p = gen_values(r, s)
+        p = gen_values(r, s, fine=fine)
         p.update(key=s["key"], enabled=True, slot=params[0]["slot"])
         params.append(p)
     if not any(p["enabled"] for p in params) or r.random() < 0.5:
         params[r.randrange(len(params))]["enabled"] = True
+    if dask and mode == "sequential" and nparams == 1:
+        for p in params[1:]:
+            p["enabled"] = False
+        params[0]["enabled"] = True
     if mode == "product":
         # bound the number of runs
         tot = 1
         for p in params:
             if p["enabled"] and p["kind"] == "lit":
-                while tot * len(p["values"]) > 24 and len(p["values"]) > 1:
+                while tot * len(p["values"]) > (12 if dask else 24) and len(p["values"]) > 1:
                     p["values"] = p["values"][:-1]
                     p.pop("expr", None)
                 tot *= len(p["values"])
-    case = dict(mode=mode, layout=lay, probes=probes, params=params,
+    case = dict(mode=mode, layout=lay, probes=probes, params=params, dask=bool(dask), fine=bool(fine),
+                inherit=bool(dask or r.random() >= 0.12),        # with_inherited_coords (the dask path requires True)
                 slots=[dict(key=s["key"], default=s["default"]) for s in slots], table=[], range=None, file="npy")
     if mode == "custom":
         widths = []
@@ -201,6 +277,8 @@ def gen_case(r, mode=None, lay=None, kind="valid"):
         total = sum(widths)
         nrows = r.randrange(1, 7)
         extra_l = r.choice([0, 0, 0, 1, 2])
+        if dask and r.random() < 0.8:
+            extra_l = 0             # the dask path addresses the selected columns by the labels 0,1,..
         extra_r = r.choice([0, 0, 1])
         ncols = total
         if kind == "width_mismatch":
@@ -214,6 +292,8 @@ def gen_case(r, mode=None, lay=None, kind="valid"):
                 s = cols[j] if j < len(cols) else dict(lo=1, hi=8, vlen=0, key="")
                 if s["key"] == ADC:
                     row.append(8 * (1 + (j % 2) * 3) + r.randrange(0, 8))
+                elif s.get("neg"):
+                    row.append(rand_val(r, dict(s, vlen=0)))
                 else:
                     row.append(r.randrange(s["lo"], s["hi"] + 1))
             row += [r.randrange(1, 8) for _ in range(extra_r)]
@@ -222,17 +302,77 @@ def gen_case(r, mode=None, lay=None, kind="valid"):
         case["range"] = [extra_l, extra_l + ncols - 1] if ncols > 0 else [extra_l, extra_l]
         if kind == "no_range":
             case["range"] = None
-        case["file"] = "txt" if (len(table[0]) >= 2 and r.random() < 0.3) else "npy"
+        # text tables only for n/8 values: pandas' default float parser is not correctly rounded for 17-digit decimals
+        # (reading files faithfully is C20's subject)
+        case["file"] = "txt" if (len(table[0]) >= 2 and r.random() < 0.3 and not fine) else "npy"
     return case
 
 
 def canon(case):
-    return json.dumps({k: case[k] for k in ("mode", "layout", "params", "slots", "table", "range")}, sort_keys=True)
+    return json.dumps({k: case.get(k) for k in ("mode", "layout", "params", "slots", "table", "range", "dask", "inherit", "fine")},
+                      sort_keys=True)
 
 
-def gen_cases(ctx: Ctx, budget: int):
+CORPUS = core.VERIF / "harness" / "corpus" / "C05"
+
+
+def load_corpus():
+    """Minimised past failures (formerly failing inputs of repaired defects, inputs that exposed seeded changes)."""
+    out = []
+    if CORPUS.is_dir():
+        for f in sorted(CORPUS.glob("*.json")):
+            data = json.loads(f.read_text())
+            for c in (data if isinstance(data, list) else [data]):
+                c.setdefault("dask", False)
+                c["corpus"] = f.name
+                out.append(c)
+    return out
+
+
+def gen_dask_case(r, mode=None):
+    """A case for the dask path, aimed at the labelling clause: lists that are not ascending, descending lists,
+    negative and float values, vector-valued parameters; mostly without the inputs of the known defects of that path
+    (a value twice in a product list, >= 2 sequential parameters, a one-element placeholder list, a column range not
+    starting at 0, colliding names) -- those are still generated, at a low rate, and always in gen_cases' fixed list."""
+    mode = mode or r.choice(["product", "product", "product", "sequential", "custom", "custom"])
+    lay = r.choices(["L1", "L3", "L4", "L2", "L5"], [10, 4, 2, 1, 1])[0]
+    style = r.choice(["unsorted", "unsorted", "desc", "mixed", None])
+    return gen_case(r, mode, lay, dask=True, style=style, neg=r.random() < 0.5)
+
+
+def enum_cases(r):
+    """Thorough tier: exhaustive small scope on both paths -- every order of a 3-value scalar list against every order
+    of a 2- or 3-value list of a second parameter (scalar or vector valued), product mode; every order of a 3-value
+    list, sequential mode (one parameter); every order of 3 table rows, custom mode."""
+    import itertools
+    out = []
+    base = gen_case(r, "product", "L1", nparams=1, neg=False, fine=False, dask=False)
+    slots = {s["key"]: i for i, s in enumerate(base["slots"])}
+    ka, kb, kw = P1.format(m="m1") + "a", P2.format(m="m2") + "b", P2.format(m="m2") + "w"
+
+    def case(mode, params, dask, table=None, rng=None):
+        c = json.loads(json.dumps(base))
+        c.update(mode=mode, dask=dask, inherit=True, table=table or [], range=rng,
+                 params=[dict(p, enabled=True, slot=slots[p["key"]]) for p in params])
+        return c
+
+    for dask in (False, True):
+        for pa in itertools.permutations([8, 16, 24]):
+            for second in ([40, 48], [[8, 16], [4, 2], [4, 40]]):
+                key2 = kb if not isinstance(second[0], list) else kw
+                for pb in itertools.permutations(second):
+                    out.append(case("product", [dict(kind="lit", key=ka, values=list(pa)),
+                                                dict(kind="lit", key=key2, values=[v for v in pb])], dask))
+            out.append(case("sequential", [dict(kind="lit", key=ka, values=list(pa))], dask))
+        for rows in itertools.permutations([[8, 40, 9], [16, 20, 30], [24, 8, 16]]):
+            out.append(case("custom", [dict(kind="under", key=ka), dict(kind="unders", n=2, key=kw)], dask,
+                            table=[list(x) for x in rows], rng=[0, 2]))
+    return out
+
+
+def gen_cases(ctx: Ctx, budget: int, dask_budget: int):
     r = ctx.rng("cases")
-    cases = []
+    cases = load_corpus()
     # adversarial list first (the mutations and the findings the property text names)
     for mode in ("product", "sequential", "custom"):
         for lay in ("L1", "L3", "L2", "L4", "L5"):
@@ -243,6 +383,10 @@ def gen_cases(ctx: Ctx, budget: int):
     cases.append(gen_case(r, "custom", "L1", kind="literal_in_custom"))
     cases.append(gen_case(r, "product", "L1", kind="placeholder_in_noncustom"))
     cases.append(gen_case(r, "sequential", "L1", kind="placeholder_in_noncustom"))
+    # unsorted / descending lists and negative values on the non-dask path too
+    for mode in ("product", "sequential"):
+        for style in ("unsorted", "desc"):
+            cases.append(gen_case(r, mode, "L1", style=style, neg=True))
     while len(cases) < budget:
         k = r.random()
         kind = "valid"
@@ -254,11 +398,39 @@ def gen_cases(ctx: Ctx, budget: int):
             kind = "placeholder_in_noncustom"
         elif k < 0.10:
             kind = "no_range"
-        c = gen_case(r, kind=kind)
+        style = r.choice([None, None, "mixed", "unsorted", "desc"])
+        c = gen_case(r, kind=kind, style=style)
         if kind in ("width_mismatch", "literal_in_custom", "no_range"):
             c = gen_case(r, "custom", kind=kind)
         cases.append(c)
-    return cases
+    # ---- the dask path (with_dask=True, synchronous scheduler)
+    rd = ctx.rng("dask")
+    dcases = []
+    for mode in ("product", "sequential", "custom"):
+        for lay in ("L1", "L3", "L4"):
+            for style in ("unsorted", "desc"):
+                dcases.append(gen_case(rd, mode, lay, dask=True, style=style, nodup=True, neg=(style == "desc"),
+                                       nparams=1 if mode == "sequential" else None))
+        for lay in ("L2", "L5"):                       # name collisions / undefined names on the dask path
+            dcases.append(gen_case(rd, mode, lay, dask=True, style="unsorted", nodup=True))
+    dcases.append(gen_case(rd, "product", "L1", dask=True, nodup=False, style=None, nparams=2))
+    dcases.append(gen_case(rd, "sequential", "L1", dask=True, style="unsorted", nparams=3))
+    for kind in ("width_mismatch", "no_range", "literal_in_custom"):
+        dcases.append(gen_case(rd, "custom", "L1", kind=kind, dask=True))
+    for mode in ("product", "sequential"):
+        dcases.append(gen_case(rd, mode, "L1", kind="placeholder_in_noncustom", dask=True))
+    while len(dcases) < dask_budget:
+        k = rd.random()
+        if k < 0.04:
+            dcases.append(gen_case(rd, "custom", kind=rd.choice(["width_mismatch", "literal_in_custom", "no_range"]),
+                                   dask=True))
+        elif k < 0.06:
+            dcases.append(gen_case(rd, rd.choice(["product", "sequential"]), kind="placeholder_in_noncustom", dask=True))
+        else:
+            dcases.append(gen_dask_case(rd))
+    extra = [] if ctx.quick else enum_cases(ctx.rng("enum"))
+    ctx.cov["exhaustive_small_scope_cases"] = len(extra)
+    return cases + dcases + extra
 
 
 # ------------------------------------------------------------------------------------------ Coq emission
@@ -295,15 +467,17 @@ def emit_case(c, o) -> str:
     slots = core.clist(f"({core.cstr(s['key'])}, {cpval(s['default'])})" for s in c["slots"])
     table = core.clist(core.clist(core.cz(int(x)) for x in row) for row in c["table"])
     rng = "None" if not c["range"] else f"(Some ({c['range'][0]}, {c['range'][1]}))"
-    return (f"(mkCase {mode} {core.clist(cparam(p) for p in c['params'])}\n    {slots}\n    {table} {rng}\n    {obs})")
+    return (f"(mkCase {mode} {core.clist(cparam(p) for p in c['params'])}\n    {slots}\n    {table} {rng} "
+            f"{core.cbool(bool(c.get('dask')))}\n    {obs})")
 
 
 def emit_file(pairs) -> str:
     body = ";\n  ".join(emit_case(c, o) for c, o in pairs)
     return ("From Coq Require Import ZArith List String.\nFrom PyxelV Require Import Model.ParamSpace.\n"
+            "From PyxelGen Require Import Gen_C05.\n"
             "Import ListNotations.\nLocal Open Scope list_scope.\nLocal Open Scope nat_scope.\n"
             f"Definition cases : list case := [\n  {body}\n].\n"
-            "Eval vm_compute in mismatches cases.\nEval vm_compute in violations cases.\n")
+            "Eval vm_compute in mismatches src_cfg cases.\nEval vm_compute in violations src_cfg cases.\n")
 
 
 # ------------------------------------------------------------------------------------------ classification
@@ -318,55 +492,101 @@ def _short(key):
     return "readout_time" if key == "observation.readout.times" else key.split(".")[-1]
 
 
-def classify(c, o):
-    """Python-side classification of a case that Coq judged to violate the specification (signature only)."""
+def _has_dup(p):
+    vals = [json.dumps(v) for v in p.get("values", [])]
+    return len(set(vals)) < len(vals)
+
+
+# the source configuration the translator read (names of Model/ParamSpace.v cfg fields); a recorded defect that the
+# source no longer has is never used to explain a violation
+FLAGS = dict(name_fallback_full=False, name_stage3=False, custom_dims_distinct=False, custom_range_optional=False,
+             dask_custom_positional=False, dask_custom_scalar_is_placeholder=False, dask_product_dedup=False,
+             dask_sequential_rows=False)
+
+
+def set_flags(gen_text: str):
+    import re
+    m = re.search(r"mkCfg((?:\s+(?:true|false))+)\s*\.", gen_text)
+    vals = [v == "true" for v in m.group(1).split()] if m else []
+    if len(vals) == len(FLAGS):
+        for k, v in zip(list(FLAGS), vals):
+            FLAGS[k] = v
+
+
+def classify(c, o, explained=True):
+    """Python-side classification of a case that Coq judged to violate the specification (signature only).
+    explained = the as-coded model (which contains the recorded defects of the unchanged tree) reproduces what the
+    implementation did; a violation the model does not reproduce is never attributed to a recorded defect."""
+    if not explained:
+        if not o["raised"]:
+            return "runs_or_labels_differ"
+        return "raises_on_valid_request" if _accepts(c) else "unclassified"
+    dask = bool(c.get("dask"))
     en = [p for p in c["params"] if p["enabled"]]
     keys = list(dict.fromkeys(p["key"] for p in en))
     shorts = [_short(k) for k in keys]
     shared = [k for k in keys if shorts.count(_short(k)) > 1]
-    collide = any(_wm(a) is not None and _wm(a) == _wm(b) for i, a in enumerate(keys) for b in keys[i + 1:])
-    undefined = any(_wm(k) is None for k in shared)
+    collide = (not FLAGS["name_stage3"]) and any(_wm(a) is not None and _wm(a) == _wm(b)
+                                                 for i, a in enumerate(keys) for b in keys[i + 1:])
+    undefined = (not FLAGS["name_fallback_full"]) and any(_wm(k) is None for k in shared)
     vlens = set()
     for p in en:
         if p["kind"] == "unders" and p["n"] >= 1:
             vlens.add(p["n"])
         elif p["kind"] == "lit" and p["values"] and isinstance(p["values"][0], list):
             vlens.add(len(p["values"][0]))
+    if not _accepts(c):
+        return "accepts_invalid_request" if not o["raised"] else "unclassified"
+    if o["raised"]:
+        if c["mode"] == "custom" and not c["range"] and not FLAGS["custom_range_optional"]:
+            return "custom_without_column_range_raises"
+        if undefined:
+            return "dim_name_undefined_raises"
+        if collide and (c["mode"] == "product" or dask):
+            return "dim_name_collision_raises"
+        if dask and c["mode"] == "product" and any(_has_dup(p) for p in en) and not FLAGS["dask_product_dedup"]:
+            return "dask_product_duplicate_values_raises"
+        if dask and c["mode"] == "custom" and c["range"] and c["range"][0] > 0 and not FLAGS["dask_custom_positional"]:
+            return "dask_custom_column_offset_raises"
+        if c["mode"] != "product" and len(vlens) > 1 and not dask and not FLAGS["custom_dims_distinct"]:
+            return "vector_lengths_differ_raises"
+        return "raises_on_valid_request"
+    if collide and c["mode"] != "product" and not dask:
+        return "dim_name_collision_silent"
+    if dask and c["mode"] == "sequential" and len(en) >= 2 and not FLAGS["dask_sequential_rows"]:
+        return "dask_sequential_zips"
+    if dask and c["mode"] == "custom" and any(p["kind"] == "unders" and p["n"] == 1 for p in en) \
+            and not FLAGS["dask_custom_scalar_is_placeholder"]:
+        return "dask_custom_one_element_list_scalar"
+    return "runs_or_labels_differ"
+
+
+def _accepts(c) -> bool:
+    """Is the request well-formed (python mirror of spec_accepts, used for the signature only)?"""
+    en = [p for p in c["params"] if p["enabled"]]
     if c["mode"] == "custom":
         accepts = all(p["kind"] != "lit" for p in en)
         total = sum(1 if p["kind"] == "under" else p.get("n", 0) for p in en if p["kind"] != "lit")
         ncols = (c["range"][1] + 1 - c["range"][0]) if c["range"] else (len(c["table"][0]) if c["table"] else 0)
         if c["range"] and c["table"]:
             ncols = len(c["table"][0][c["range"][0]:c["range"][1] + 1])
-        accepts = accepts and total != 0 and total == ncols
-    else:
-        accepts = all(p["kind"] == "lit" for p in en)
-    if not accepts:
-        return "accepts_invalid_request" if not o["raised"] else "unclassified"
-    if o["raised"]:
-        if c["mode"] == "custom" and not c["range"]:
-            return "custom_without_column_range_raises"
-        if undefined:
-            return "dim_name_undefined_raises"
-        if collide and c["mode"] == "product":
-            return "dim_name_collision_raises"
-        if c["mode"] != "product" and len(vlens) > 1:
-            return "vector_lengths_differ_raises"
-        return "raises_on_valid_request"
-    if collide and c["mode"] != "product":
-        return "dim_name_collision_silent"
-    return "runs_or_labels_differ"
+        return accepts and total != 0 and total == ncols
+    return all(p["kind"] == "lit" for p in en)
 
 
-def to_violation(c, o) -> Violation:
-    clause = classify(c, o)
-    sig = dict(clause=clause, mode=c["mode"])
+def to_violation(c, o, explained=True) -> Violation:
+    clause = classify(c, o, explained)
+    sig = dict(clause=clause, mode=c["mode"], dask=bool(c.get("dask")))
     en = [p for p in c["params"] if p["enabled"]]
-    what = (f"{c['mode']} observation over {[p['key'] for p in en]}: {clause}"
+    what = (f"{c['mode']} observation{' (with_dask=True)' if c.get('dask') else ''} over "
+            f"{[p['key'] for p in en]}: {clause}"
             + (f" ({o['raised']}: {o.get('msg', '')[:120]})" if o.get("raised") else ""))
-    return Violation(clause=clause, case=c, observed=dict(raised=o["raised"], runs=o["runs"], result=o["result"][:40]),
-                     expected="exactly the requested runs in order, each found under its own labels with its own data "
-                              "(spec_holds in Model/ParamSpace.v)", what=what, sig=sig)
+    v = Violation(clause=clause, case=c, observed=dict(raised=o["raised"], runs=o["runs"], result=o["result"][:40]),
+                  expected="exactly the requested runs (in order; on the dask path as a multiset), each found under its "
+                           "own labels with its own data, nothing else stored (spec_holds in Model/ParamSpace.v)",
+                  what=what, sig=sig)
+    v.full_obs = o
+    return v
 
 
 # ------------------------------------------------------------------------------------------ legs
@@ -410,14 +630,83 @@ def correspondence(ctx: Ctx, cases, tag="c"):
     for c, o in pairs:
         ctx.count("evaluations", max(1, len(o["runs"])))
         ctx.count("observations")
-        ctx.dist("mode", c["mode"])
+        ctx.dist("mode", c["mode"] + ("/dask" if c.get("dask") else ""))
         ctx.dist("layout", c["layout"])
+        ctx.dist("with_inherited_coords", bool(c.get("inherit", True)))
+        ctx.dist("value_unit", "0.5+n/2^30" if c.get("fine") else "n/8")
         ctx.dist("enabled_params", sum(1 for p in c["params"] if p["enabled"]))
         ctx.dist("runs", len(o["runs"]))
         ctx.dist("outcome", o["raised"] or "ok")
         for p in c["params"]:
             ctx.dist("values_written_as", "expr:" + p["expr"].split("(")[0] if p.get("expr") else p["kind"])
+            if p["enabled"] and p["kind"] == "lit":
+                vs = [tuple(v) if isinstance(v, list) else (v,) for v in p["values"]]
+                order = ("single" if len(vs) < 2 else "repeats" if len(set(vs)) < len(vs) else
+                         "ascending" if vs == sorted(vs) else "descending" if vs == sorted(vs, reverse=True) else "unsorted")
+                ctx.dist("list_order" + ("/dask" if c.get("dask") else ""), order)
+                ctx.dist("list_values", ("vector" if isinstance(p["values"][0], list) else "scalar")
+                         + ("/negative" if any(x < 0 for v in vs for x in v) else ""))
     return mism, viol, pairs
+
+
+def _size(c):
+    return (sum(1 for p in c["params"]), sum(len(p.get("values", [])) for p in c["params"]), len(c["table"]),
+            sum(1 for p in c["params"] if p.get("expr")))
+
+
+def _reductions(c):
+    """One-step reductions of a case that keep it well-formed."""
+    import copy
+    out = []
+    ps = c["params"]
+    for k, p in enumerate(ps):
+        lit_or_off = p["kind"] == "lit" or not p["enabled"]
+        if len(ps) > 1 and (c["mode"] != "custom" or not p["enabled"]):
+            d = copy.deepcopy(c)
+            del d["params"][k]
+            if any(q["enabled"] for q in d["params"]):
+                out.append(d)
+        if p["kind"] == "lit" and p.get("expr"):
+            d = copy.deepcopy(c)
+            d["params"][k].pop("expr")
+            out.append(d)
+        if p["kind"] == "lit" and not p.get("expr") and len(p["values"]) > 1 and lit_or_off:
+            for j in range(len(p["values"])):
+                d = copy.deepcopy(c)
+                del d["params"][k]["values"][j]
+                out.append(d)
+    if c["mode"] == "custom" and len(c["table"]) > 1:
+        for j in range(len(c["table"])):
+            d = copy.deepcopy(c)
+            del d["table"][j]
+            out.append(d)
+    return out
+
+
+def shrink(ctx: Ctx, c, o, explained, rounds=8):
+    """Greedy shrinking of a violating case: keep a one-step reduction that still violates the specification
+    (judged in Coq) with the same classification; stop when none does."""
+    clause = classify(c, o, explained)
+    for rnd in range(rounds):
+        cands = _reductions(c)
+        if not cands:
+            break
+        cands.sort(key=_size)
+        cands = cands[:24]
+        obs = core.run_driver(ctx, "c05", cands, workers=4, chunk=6)
+        pairs = [(d, b) for d, b in zip(cands, obs) if "crash" not in b and "driver_error" not in b]
+        if not pairs:
+            break
+        ok, evals, se = core.coq_eval(ctx, f"shrink_{rnd}", emit_file(pairs))
+        if not ok or len(evals) != 2:
+            break
+        mism = set(core.parse_int_list(evals[0]))
+        keep = [(pairs[i][0], pairs[i][1], i not in mism) for i in core.parse_int_list(evals[1])]
+        keep = [(d, b, e) for d, b, e in keep if classify(d, b, e) == clause and e == explained]
+        if not keep:
+            break
+        c, o, explained = min(keep, key=lambda t: _size(t[0]))
+    return c, o, explained
 
 
 def new_violations(ctx: Ctx):
@@ -427,14 +716,27 @@ def new_violations(ctx: Ctx):
 
 def run(ctx: Ctx):
     ctx.trusted += TRUSTED
+    ctx.max_reported = 8        # one replay per clause (the violations are ordered so that distinct clauses come first)
     ctx.assumptions += [
-        "sequential (with_dask=False) path only; the dask path belongs to C07",
-        "swept keys exist and their models are enabled (key resolution is C08); one readout time; values are "
-        "multiples of 1/8 in [0, 8); every vector-valued setting keeps its length; custom tables have 1..6 rows",
+        "both paths of Observation.run_pipelines: with_dask=False, and with_dask=True under the synchronous scheduler "
+        "(other schedulers, output files and seeding under dask belong to C07)",
+        "swept keys exist and their models are enabled (key resolution is C08); one readout time; values are multiples "
+        "of 1/8, detector fields in [0, 8), model arguments in (-4, 8); every vector-valued setting keeps its length; "
+        "custom tables have 1..6 rows",
         "product/custom requests have distinct enabled keys (a repeated key is only meaningful in sequential mode)",
+        "on the dask path the executed runs are compared as a multiset and ONE further execution of a requested run is "
+        "allowed (run_pipelines_with_dask runs the first cell once more to learn the output shape)",
     ]
-    core.proof_leg(ctx, {}, PROP_FILE)
-    cases = gen_cases(ctx, ctx.budget(400, 1500))
+    try:
+        gen = {"Gen_C05.v": tr.translate(ctx.repo)}
+    except core.TranslationError as ex:
+        ctx.broken.append(Broken("translation", "translator/c05.py", str(ex)))
+        ctx.log(f"translation failed (continuing with the FALLBACK model): {ex}")
+        gen = {"Gen_C05.v": tr.FALLBACK}
+    ctx.cov["src_cfg"] = gen["Gen_C05.v"].strip().splitlines()[-1]
+    set_flags(gen["Gen_C05.v"])
+    core.proof_leg(ctx, gen, PROP_FILE)
+    cases = gen_cases(ctx, ctx.budget(400, 1500), ctx.budget(160, 600))
     mism, viol, pairs = correspondence(ctx, cases)
     distinct = {canon(c) for c, _ in pairs if nontrivial(c)}
     ctx.cov["distinct_nontrivial"] = len(distinct)
@@ -446,10 +748,35 @@ def run(ctx: Ctx):
     for c, o in pairs[:40:9]:
         ctx.sample(dict(mode=c["mode"], params=[{k: p[k] for k in p if k != "slot"} for p in c["params"]],
                         runs=o["runs"][:4], result=o["result"][:2], raised=o["raised"]))
+    unexplained = {id(c) for c, _ in mism}
+    vs = []
     for c, o in viol:
-        v = to_violation(c, o)
-        ctx.dist("spec_violation", f"{v.clause}/{c['mode']}")
-        ctx.violations.append(v)
+        v = to_violation(c, o, explained=id(c) not in unexplained)
+        ctx.dist("spec_violation", f"{v.clause}/{c['mode']}{'/dask' if c.get('dask') else ''}")
+        vs.append(v)
+    # core.finish reports at most five distinct signatures: put one violation of every clause first
+    first, rest, seen = [], [], set()
+    for v in vs:
+        (rest if v.clause in seen else first).append(v)
+        seen.add(v.clause)
+    # shrink what will be reported as new (not what matches a recorded defect): one case per signature
+    fs = core.load_findings(ctx.prop)
+    done = set()
+    for k, v in enumerate(first + rest):
+        key = json.dumps(v.sig, sort_keys=True)
+        if key in done or len(done) >= ctx.max_reported or any(core.finding_matches(e, v) for e in fs):
+            continue
+        done.add(key)
+        try:
+            c2, o2, e2 = shrink(ctx, v.case, v.full_obs, id(v.case) not in unexplained)
+            if c2 is not v.case:
+                w = to_violation(c2, o2, e2)
+                if w.sig == v.sig:
+                    (first if k < len(first) else rest)[k if k < len(first) else k - len(first)] = w
+                    ctx.count("shrunk_cases")
+        except Exception as ex:  # noqa: BLE001 -- shrinking is best effort, the unshrunk case is still reported
+            ctx.log(f"shrinking failed: {type(ex).__name__}: {ex}")
+    ctx.violations += first + rest
     (ctx.build / "mismatches.json").write_text(json.dumps([dict(case=c, observed=o) for c, o in mism], indent=1))
     for c, o in mism:
         ctx.broken.append(Broken("correspondence", "Model/ParamSpace.v vs implementation",
@@ -468,8 +795,9 @@ def search(ctx: Ctx):
             for lay in ("L1", "L3"):
                 cases.append(gen_case(r, mode, lay))
     mism, viol, pairs = correspondence(ctx, cases, tag="s")
+    unexplained = {id(c) for c, _ in mism}
     for c, o in viol:
-        ctx.violations.append(to_violation(c, o))
+        ctx.violations.append(to_violation(c, o, explained=id(c) not in unexplained))
     ctx.cov["search_cases"] = len(pairs)
 
 
@@ -480,11 +808,20 @@ def replay(ctx: Ctx, rp: dict) -> int:
         print(rp.get("detail", ""))
         return 1
     obs = core.run_driver(ctx, "c05", [case], workers=1)[0]
-    print("case:", json.dumps({k: case[k] for k in ("mode", "params", "table", "range")})[:1500])
+    print("case:", json.dumps({k: case.get(k) for k in ("mode", "dask", "params", "table", "range")})[:1500])
     print("implementation now returns:", json.dumps(obs)[:1500])
     if "crash" in obs or "driver_error" in obs:
         return 1
     core.ensure_lib(ctx, targets=["theories/Model/ParamSpace.vo"])
+    try:
+        gen = tr.translate(ctx.repo)
+    except core.TranslationError as ex:
+        print(f"translation failed ({ex}); the specification is evaluated for the FALLBACK source configuration")
+        gen = tr.FALLBACK
+    gd = ctx.build / "gen"
+    gd.mkdir(parents=True, exist_ok=True)
+    (gd / "Gen_C05.v").write_text(gen)
+    core.coqc(ctx, gd / "Gen_C05.v", [(gd, "PyxelGen")])
     ok, evals, se = core.coq_eval(ctx, "replay", emit_file([(case, obs)]))
     bad = (not ok) or core.parse_int_list(evals[1]) != []
     print("specification (evaluated in Coq):", "VIOLATED" if bad else "holds")
@@ -494,20 +831,27 @@ def replay(ctx: Ctx, rp: dict) -> int:
 META = dict(
     level_text=(
         "Coq theorems, for any number of parameters and any list lengths, over an executable model of ProductMode / "
-        "SequentialMode / CustomMode and of the short-dimension-name rule: the product run list is the row-major "
-        "Cartesian product (count, distinct and exhaustive index tuples, run n = mixed-radix digits of n, index i_k "
-        "carries element i_k of list k), sequential runs are the configured defaults with one key replaced at a time, "
-        "custom runs consume columns at prefix-sum offsets and are refused exactly on a width/column mismatch, disabled "
-        "parameters never contribute, and two dimension names coincide exactly when model name and argument name "
-        "coincide (the full injectivity statement is refuted with a witness). That the model is what the code does, "
-        "and that the returned DataTree stores each run's data under that run's labels, is established by "
-        "correspondence (testing): real non-dask observations with a probe model that records what each run received; "
-        "ordered run list and complete label->data map compared and judged inside Coq."),
+        "SequentialMode / CustomMode, of the dimension-name rule as read from the source by a translator, of the "
+        "coordinate attachment and of the merge: the product run list is the row-major Cartesian product (count, distinct "
+        "and exhaustive index tuples, run n = mixed-radix digits of n, index i_k carries element i_k of list k), sequential "
+        "runs are the configured defaults with one key replaced at a time, custom runs consume columns at prefix-sum "
+        "offsets and are refused exactly on a width/column mismatch, disabled parameters never contribute; distinct swept "
+        "keys get distinct, defined dimension names (as strings); after the merge every run is found under its own labels "
+        "with its own data, nothing else is stored, and the merge fails exactly on equal labels with different data; for "
+        "each mode the modelled observation as a whole runs and maps each run's labels to that run's data. Dask path: for "
+        "every reordering of the levels the product cells are the requested runs, each once, each found under the label "
+        "made of exactly its values; custom cells take the requested columns; sequential mode is refuted beyond one "
+        "parameter and duplicate values are refused (open findings, full statements kept visible). That the hand-written "
+        "loops of the model are what the code does, and that the returned DataTree stores each run's data under that "
+        "run's labels, is established by correspondence (testing): real observations on both paths with a probe model "
+        "that records what each run received; run list and complete label->data map compared and judged inside Coq."),
     level_note=(
-        "Trusted: Coq kernel + vm_compute; the hand-written model (no translator); the harness, driver and probe; "
-        "itertools/zip/dict/pandas/xarray semantics as modelled. Not proved in Coq: lookup-after-merge (C05_lookup of "
-        "the design) and injectivity of rendering names to strings; both are covered by the correspondence only. "
-        "Assumes existing keys, enabled models, one readout time, fixed vector lengths, distinct keys in product/custom."),
-    technique="Coq proof over an executable Gallina model + in-Coq correspondence/specification evaluation on real observations",
+        "Trusted: Coq kernel + vm_compute; the translator (declarative parts only, fail-closed) and the hand-written model "
+        "of the loops; the harness, driver and probe; itertools/zip/dict/pandas/xarray/dask semantics as modelled. The "
+        "theorems about the whole observation are about the model; the tie to the implementation is testing. Assumes "
+        "existing keys, enabled models, one readout time, fixed vector lengths, distinct keys in product/custom; dask "
+        "only under the synchronous scheduler (C07 covers schedulers)."),
+    technique="Coq proof over an executable Gallina model + source translator + in-Coq correspondence/specification "
+              "evaluation on real observations (non-dask and dask path)",
     design_ref="DESIGN.md section 6, C05",
 )
